@@ -172,4 +172,22 @@ example : let r := feed (Z := toyInflater) ⟨4096, false, true, 131072⟩ {} [0
     r.p.k.phase = .payload ∧ r.p.k.toRead = 2100 ∧ r.p.k.msgs = [] ∧ r.p.fragCount = 1 ∧
     maxFragments ⟨4096, false, true, 131072⟩ = 1024 := by decide +kernel
 
+/-- Flow control of the data queue: reading a message first subtracts its size and only then tests
+the resume condition — so whenever the bytes still queued after the read are below the limit, the
+transport is un-paused by that very read.  In particular reading the only queued message
+(`qsize = m.size`) always un-pauses (for any positive limit), however large the message was. -/
+theorem read_unpauses (c : Cfg) (r : Reader Z) (m : Msg) (rest : List Msg)
+    (h : r.p.k.msgs.drop r.p.k.nread = m :: rest) (hlt : r.p.k.qsize - m.size < c.queueLimit) :
+    (read c r).2 = .msg m ∧ (read c r).1.p.paused = false ∧ (read c r).1.p.k.qsize = r.p.k.qsize - m.size := by
+  unfold read
+  rw [h]
+  refine ⟨rfl, ?_, rfl⟩
+  show (if r.p.k.qsize - m.size < c.queueLimit ∧ r.p.paused = true then false else r.p.paused) = false
+  cases hp : r.p.paused <;> simp [hlt]
+
+theorem read_last_unpauses (c : Cfg) (hl : 0 < c.queueLimit) (r : Reader Z) (m : Msg)
+    (h : r.p.k.msgs.drop r.p.k.nread = [m]) (hq : r.p.k.qsize = m.size) :
+    (read c r).1.p.paused = false :=
+  (read_unpauses c r m [] h (by rw [hq]; simpa using hl)).2.1
+
 end Aio.C12
